@@ -79,17 +79,22 @@ Definition check_driver (c : dcase) : N :=
 Inductive case :=
   | Drv (d : dcase)
   | Net (initiator acceptor : N) (hung acceptor_panicked initiator_ok acceptor_ok : bool)
-        (initiator_recv_sent acceptor_recv_sent : N * N).
+        (initiator_recv_sent acceptor_recv_sent : N * N)
+        (acceptor_error_after_allow_names_no_document : bool).
 
 Definition check (c : case) : N :=
   match c with
   | Drv d => check_driver d
-  | Net fa fb hung bp aok bok ac bc =>
+  | Net fa fb hung bp aok bok ac bc unnamed =>
       let healthy := (fa =? 0) && (fb =? 0) in
       (* 5 = the actor is shut down while the session runs: the session may still complete before it *)
       let surely_broken := negb ((fa =? 0) || (fa =? 5)) || negb ((fb =? 0) || (fb =? 5)) in
+      (* 6 = the initiator vanishes right after the acceptor allowed the request *)
       let m2 :=
         negb hung && negb bp                                   (* both calls return, nobody panics *)
+        (* once the request was allowed the slot for (document, peer) is held: whatever fails afterwards,
+           the accepting side's report names the document (the engine frees the slot by it) *)
+        && negb unnamed
         && (negb healthy || (aok && bok))                      (* nothing wrong on either side: both succeed *)
         && (negb (aok && bok) || negb surely_broken)           (* both succeed only if nothing was wrong *)
         && (negb (aok && bok) || ((snd ac =? fst bc) && (fst ac =? snd bc))) in   (* counters mirror *)
